@@ -6,9 +6,9 @@ from common import freephil, enc, dec, obj_j, call_j, err_j
 
 LEVEL = "proof"
 MODULE = "Phil.Props.C14"
-LEVEL_TEXT = 'Lean theorems about the argument-interpreter model: an iff-characterisation of each score class in terms of infix/prefix/suffix and the home scope (score_classes), exact path wins (exact_wins_master), the chosen path contains the name and no path has a higher class (choose_sound), ambiguity lists all best matches, unknown iff no path contains the name, the expert tie-break characterised completely (chosen_warned_iff); value transfer: process_arg_single / _as_from_file / _many, fetch_of_args_is_fetch_of_list. Match classes are tied to the source constants by regenerated tables. Tied to /repo by a correspondence run of process(arg) on small-alphabet masters with and without home scope; the oracle states the ranking of the property independently and checks selection, refusal lists, value transport and the list clause.'
-LEVEL_NOTE = 'Tie-break arithmetic score - expert/100 is modelled exactly as 100*score - expert (expert levels 0..9 generated).'
-TECHNIQUE = 'Lean 4 theorems on the score/selection model and value transfer + differential correspondence + independent ranking oracle'
+LEVEL_TEXT = "Lean theorems about the argument-interpreter model: an iff-characterisation of each score class (score_classes), exact path wins, the chosen path contains the name and no path has a higher class (choose_sound), ambiguity lists all best matches, unknown iff no path contains the name, the expert tie-break characterised completely (chosen_warned_iff; with Auto levels: choosePathA_stray_iff); value transfer: process_arg_single / _as_from_file / _many, fetch_of_args_is_fetch_of_list. get_path_score is REGENERATED from the Python source on every run and proved equal to the model's score function for all inputs (get_path_score_eq). Tied to /repo by a correspondence run of process(arg) on small-alphabet masters with and without (nested) home scope; the oracle states the ranking of the property independently and checks selection, refusal lists, value transport and the list clause."
+LEVEL_NOTE = 'Tie-break arithmetic is in integers in code and model (D77 fixed).'
+TECHNIQUE = 'Lean 4 theorems on the score/selection model and value transfer + get_path_score translated from the source + differential correspondence + independent ranking oracle'
 RULE = ("masters from path sets over the component alphabet {a,b,ab,ba} (depth <= 3, so substring/suffix collisions abound), "
         "expert levels on scopes/definitions, written as single nested blocks or (every 4th case) one parameter at a time with the path "
         "cut at random into dotted names and nested blocks, in random order, so that scopes are reopened and the first block of a "
